@@ -162,36 +162,17 @@ TTableCodon ==
 (* style counting is done by the CellOrder check: events must arrive in    *)
 (* the canonical order, so a skipped cell is itself a rejection.           *)
 (***************************************************************************)
-CellExpected(c, b) ==
-    LET d == Decode(c, b)
-        a == FromAscii(c, b)
-        isSym == c # "text" /\ b \in CodesOf(c)
-        isTextSym == c = "text"
-    IN  [tfb |-> d,                                   \* try_from_bits
-         ufb |-> IF d # NoSym THEN d ELSE -3,          \* unchecked decoder: only where the fallible one succeeds
-         tfa |-> a,
-         ufa |-> IF a # NoSym THEN a ELSE -3,
-         ch |-> IF isSym \/ isTextSym THEN Char(c, b) ELSE -3,       \* to_char of the symbol with this code
-         bits |-> IF isSym \/ isTextSym THEN b ELSE -3,
-         comp |-> IF isSym /\ HasComp(c) THEN Comp(c, b) ELSE -3,
-         mask |-> IF isSym /\ (c = "miupac" \/ (c = "mdna" /\ b \in MDnaCaseSyms \cup MDnaFixedSyms))
-                  THEN Mask(c, b) ELSE -3,
-         unmask |-> IF isSym /\ (c = "miupac" \/ (c = "mdna" /\ b \in MDnaCaseSyms \cup MDnaFixedSyms))
-                    THEN Unmask(c, b) ELSE -3]
-
 TCell ==
     /\ IsOp("cell")
     /\ (l > 1 /\ Rec[l - 1].op = "cell" /\ Rec[l - 1].c = ev.c) => ev.b = Rec[l - 1].b + 1
     /\ (l = 1 \/ Rec[l - 1].op # "cell" \/ Rec[l - 1].c # ev.c) => ev.b = 0
-    /\ out' = CellExpected(ev.c, ev.b)
-    /\ OnlyOut
+    /\ Cell(ev.c, ev.b)
     /\ Match(out')
 
 TCodecInfo ==
     /\ IsOp("codecinfo")
     /\ (l > 1 /\ Rec[l - 1].op = "cell") => Rec[l - 1].b = 255      \* the 256 cells before it were complete
-    /\ out' = [w |-> W(ev.c), items |-> SetToSortSeq(CodesOf(ev.c), <)]   \* symbol list, sorted by code
-    /\ OnlyOut
+    /\ CodecInfo(ev.c)
     /\ Match(out')
 
 \* a known finding taken as observed
